@@ -231,7 +231,8 @@ FaultsCleared ==
 
 Panic ==
   /\ Live("panic")
-  /\ V("Panic") /\ bad' = TRUE /\ UNCHANGED <<nobs>> /\ Same
+  \* (a bundled metrics collector refusing a name the library emits is C20's matter)
+  /\ V(IF "metric" \in DOMAIN Ev /\ Ev.metric THEN "Metric_panic" ELSE "Panic") /\ bad' = TRUE /\ UNCHANGED <<nobs>> /\ Same
 
 ----------------------------------------------------------------------------
 (* observations *)
